@@ -74,6 +74,10 @@ def make_inputs(r, tier, fgs):
                       ("Glc3Bz", (2, 4, 6)), ("Glc2Bn", (3, 4, 6)), ("Man6Tr", (2, 3, 4)), ("Glc2Bz3Bz", (4, 6))):
         for p_ in (poss if tier == "thorough" else r.sample(poss, 2)):
             items.append({"iupac": f"Man(a1-3)Gal(b1-{p_}){par}", "kw": {}, "kind": "multiring"})
+    for anh in ("3,6-Anhydro-Gal", "3,6-Anhydro-Glc"):
+        for p1, p2 in ((2, 4), (4, 2)):
+            items.append({"iupac": f"Gal(b1-{p1})[Glc(b1-{p2})]{anh}(a1-3)Gal", "kw": {}, "kind": "multiring"})
+            items.append({"iupac": f"Gal(b1-{p1})[Glc(b1-{p2})]{anh}(a1-6)Man(b1-4)Glc", "kw": {}, "kind": "multiring"})
     # width
     items.append({"iupac": "Man(a1-2)[Gal(b1-3)][Fuc(a1-4)][Xyl(b1-6)]Glc", "kw": {}, "kind": "wide"})
     items.append({"iupac": "Man(a1-2)[Gal(b1-3)][Fuc(a1-4)][Xyl(b1-6)]Man(a1-4)Glc", "kw": {}, "kind": "wide"})
